@@ -891,6 +891,12 @@ func postprocessASAACL(c *cmd) {
 func postprocessACLParts(c *cmd, parts []string) {
 	proto := ""
 
+	// Abort if command ends before the n words needed next.
+	need := func(n int) {
+		if len(parts) < n {
+			errlog.Abort("Incomplete command: %s", c.orig)
+		}
+	}
 	convNamed := func(m map[string]int) {
 		if len(parts) > 0 {
 			if num, found := m[parts[0]]; found {
@@ -908,16 +914,19 @@ func postprocessACLParts(c *cmd, parts []string) {
 		}
 	}
 	convObjectGroup := func() {
+		need(2)
 		name := parts[1]
 		parts[1] = "$REF"
 		c.ref = append(c.ref, name)
 		parts = parts[2:]
 	}
 	convProto := func() {
+		need(1)
 		switch parts[0] {
 		case "object-group":
 			convObjectGroup()
 		case "object":
+			need(2)
 			parts = parts[2:]
 		default:
 			if name, found := protoNonNumeric[parts[0]]; found {
@@ -946,6 +955,7 @@ func postprocessACLParts(c *cmd, parts []string) {
 				convNamed(logNames)
 			case "host", "object", "object-group-security", "object-group-user",
 				"security-group", "user", "user-group":
+				need(2)
 				parts = parts[2:]
 			case "any", "any4", "any6", "interface":
 				parts = parts[1:]
